@@ -335,6 +335,7 @@ def run(check):
         check.notes.append('twisted basic.py parsed but dataReceived -> callback not recognised: %s' % sorted(found))
     except Exception as e:  # pragma: no cover
       check.notes.append('twisted basic.py could not be parsed: %s' % e)
+  rule_handler_isolation(check, cx, check.rule('R-C01-handler-isolation', 1, 'Event.__call__ isolates each subscriber: a raising handler does not keep later handlers (the pipeline) from seeing the datapoint'))
 
 
 def _wire_order(g, loop_node, it, fn):
@@ -375,3 +376,41 @@ def _wire_order(g, loop_node, it, fn):
   if isinstance(it, ast.Call) and isinstance(it.func, ast.Name) and it.func.id in ('list', 'tuple', 'iter', 'enumerate') and it.args:
     return _wire_order(g, loop_node, it.args[0], fn)
   return 'unknown', 'expression kind %s' % type(it).__name__
+
+
+def rule_handler_isolation(check, cx, rule):
+  """Event.__call__ delivers to every subscriber although an earlier one raised: the call of each handler sits in a try
+  INSIDE the loop over the handlers whose catch-all clause neither re-raises nor leaves the loop.  (The pipeline is one
+  subscriber of metricReceived among others, registered after the default and the plugin handlers.)"""
+  fn = cx.fn('carbon.events', 'Event.__call__')
+  if not rule.require(fn is not None, 'carbon.events.Event.__call__ not found'):
+    return
+  from ..rulelib import resolve_copies
+  loops = [l for l in ast.walk(fn.node) if isinstance(l, ast.For) and
+           any('handlers' in unparse(e) for e in [l.iter] + [x for x in resolve_copies(fn, l.iter) if isinstance(x, ast.AST)])]
+  if not rule.require(len(loops) == 1, 'expected one loop over self.handlers in Event.__call__, found %d' % len(loops)):
+    return
+  loop = loops[0]
+  tnames = {x.id for x in ast.walk(loop.target) if isinstance(x, ast.Name)}
+  calls = [c for c in ast.walk(loop) if isinstance(c, ast.Call) and isinstance(c.func, ast.Name) and c.func.id in tnames]
+  if not rule.require(bool(calls), 'the loop over the handlers does not call the handler'):
+    return
+  for c in calls:
+    node, ok, why = c, False, 'the handler call is not inside a try within the loop'
+    while node is not loop:
+      par = node._parent
+      if isinstance(par, ast.Try) and any(node is s for s in par.body):
+        for h in par.handlers:
+          ts = [None] if h.type is None else ([unparse(e) for e in h.type.elts] if isinstance(h.type, ast.Tuple) else [unparse(h.type)])
+          if any(t is None or t in ('Exception', 'BaseException') for t in ts):
+            leaves = [x for s in h.body for x in walk_no_nested(s) if isinstance(x, (ast.Raise, ast.Break, ast.Return))]
+            if leaves:
+              why = 'the catch-all clause leaves the loop (`%s`)' % short(leaves[0], 30)
+            else:
+              ok = True
+      node = par
+    if ok:
+      rule.ok('handler call isolated per handler', fn.loc(c), short(c, 40))
+    else:
+      rule.violate('a failing subscriber ends the dispatch', fn, c, '%s: when one subscriber of an event raises, the '
+                   'subscribers registered after it (the processing pipeline among them) never see that datapoint' % why)
